@@ -881,7 +881,11 @@ func (c *glCtx) stmt0(s ast.Stmt) string {
 		}
 	case *ast.ForStmt:
 		// for i := 0; i < len(X); i++ { ... }
-		if as, ok := s.Init.(*ast.AssignStmt); ok && as.Tok == token.DEFINE && len(as.Lhs) == 1 && len(as.Rhs) == 1 && c.p.src(as.Rhs[0]) == "0" {
+		if as, ok := s.Init.(*ast.AssignStmt); ok && as.Tok == token.DEFINE && len(as.Lhs) == 1 && len(as.Rhs) == 1 {
+			start, okStart := c.p.evalInt(as.Rhs[0])
+			if !okStart || start < 0 {
+				break
+			}
 			if iv, ok := as.Lhs[0].(*ast.Ident); ok {
 				if be, ok := s.Cond.(*ast.BinaryExpr); ok && be.Op == token.LSS && c.p.src(be.X) == iv.Name {
 					if ce, ok := be.Y.(*ast.CallExpr); ok && c.p.src(ce.Fun) == "len" && len(ce.Args) == 1 {
@@ -891,7 +895,11 @@ func (c *glCtx) stmt0(s ast.Stmt) string {
 								c.inSwitch = 0
 								defer func() { c.inSwitch = savedSw }()
 								c.types[iv.Name] = "int"
-								return fmt.Sprintf("(.forIdx %s %s\n    %s)", leanStr(iv.Name), c.expr(ce.Args[0]), c.block(s.Body.List))
+								body := c.block(s.Body.List)
+								if start > 0 { // the loop starts at `start`: earlier indices are skipped
+									body = fmt.Sprintf("(seqs [(.ite (.lt (.var %s) (.int %d)) .cont .skip),\n    %s])", leanStr(iv.Name), start, body)
+								}
+								return fmt.Sprintf("(.forIdx %s %s\n    %s)", leanStr(iv.Name), c.expr(ce.Args[0]), body)
 							}
 						}
 					}
@@ -1243,6 +1251,9 @@ func emitValidators(p *pkg, out string) {
 				batchEntries = append(batchEntries, t+".Validate")
 			}
 		}
+	}
+	if _, ok := p.funcs["IATBatch.Validate"]; ok {
+		batchEntries = append(batchEntries, "IATBatch.Validate")
 	}
 	for _, k := range batchEntries {
 		q.translate(p, k)
